@@ -107,15 +107,35 @@ func TestSyncRecord(t *testing.T) {
 	for i := range scs {
 		sc := &scs[i]
 		r, err := execute(sc, tr+1)
-		if err != nil || r.broken != "" {
-			msg := ""
-			if err != nil {
-				msg = err.Error()
-			} else {
-				msg = r.broken
+		if err == nil && i == 0 {
+			if cerr := r.w.selfCheck(); cerr != nil {
+				out.Stats["broken"] = cerr.Error()
+				t.Fatalf("recorder self-check: %v", cerr)
 			}
-			out.Stats["broken"] = fmt.Sprintf("scenario %s: %s", sc.Name, msg)
-			t.Fatalf("scenario %s: %s", sc.Name, msg)
+		}
+		if err != nil {
+			out.Stats["broken"] = fmt.Sprintf("scenario %s: %s", sc.Name, err)
+			t.Fatalf("scenario %s: %s", sc.Name, err)
+		}
+		if r.broken != "" || r.hung != "" {
+			// The node stopped calling the source / never returned. If the run had already shown a
+			// violation, that observation stands (and is the likely cause); otherwise the machinery
+			// is at fault. Either way no further scenario is run in this process.
+			fs := monitor(r)
+			why := r.broken + r.hung
+			for _, f := range fs {
+				out.Diverge(vh.Divergence{
+					Key: f.key, What: f.what + " [scenario " + sc.Name + "; afterwards: " + why + "]",
+					Input: vh.J{"gomaxprocs": in.GoMaxProcs, "scenarios": []Scenario{replayScenario(r)}},
+					Step:  f.step, Observed: tail(r.events, f.step, 14),
+				})
+			}
+			out.Count("runs_node_hung", 1)
+			if len(fs) == 0 {
+				out.Stats["broken"] = fmt.Sprintf("scenario %s: %s", sc.Name, why)
+				t.Fatalf("scenario %s: %s", sc.Name, why)
+			}
+			break
 		}
 		if r.lateWrite > 0 { // the node was not quiescent when the run was closed: inconclusive
 			out.Count("runs_discarded_unsettled", 1)
@@ -181,7 +201,7 @@ func compact(evs []vh.J, max int) []string {
 		case "Req":
 			s = append(s, fmt.Sprintf("Req#%v(h=%v)", e["rid"], e["h"]))
 		case "Resp":
-			s = append(s, fmt.Sprintf("Resp#%v(%v v%v b%v)", e["rid"], e["r"], e["ver"], e["tag"]))
+			s = append(s, fmt.Sprintf("Resp#%v(h=%v %v v%v b%v)", e["rid"], e["h"], e["r"], e["ver"], e["tag"]))
 		case "ReqLatest":
 			s = append(s, fmt.Sprintf("ReqLatest#%v", e["rid"]))
 		case "RespLatest":
